@@ -178,9 +178,45 @@ def correspondence(lines, ctx, max_report=20):
     for l, a in zip(lines, impl):
         if "ok:" in a or "{" in a or a in ("True", "False"):
             nontrivial.add(l)
+    dist = distribution(lines, impl)
     return {"n": len(lines), "diffs": diffs, "timeouts": timeouts, "distinct_nontrivial": len(nontrivial),
+            "distribution": dist,
             "impl_s": round(t1 - t0, 2), "model_s": round(t2 - t1, 2),
             "samples": [{"request": l, "answer": a} for l, a in list(zip(lines, impl))[:3]]}
+
+def distribution(lines, answers):
+    """what the generated stream looked like: request kinds and classes, operation kinds, answer kinds
+    (ok / each error kind / unspecified-after-error), and a histogram of byte-string argument lengths"""
+    from collections import Counter
+    kinds, classes, ops, ans, lens = Counter(), Counter(), Counter(), Counter(), Counter()
+    for l, a in zip(lines, answers):
+        w = l.split()
+        kinds[w[0]] += 1
+        if len(w) > 1:
+            classes[w[1]] += 1
+        body = l.split(" :: ", 1)[1] if " :: " in l else ""
+        for op in body.replace("##", "|").split("|"):
+            t = op.split()
+            if t:
+                ops[t[0]] += 1
+        for tok in l.replace("|", " ").split():
+            if tok.startswith("x") and all(c in "0123456789abcdef" for c in tok[1:]):
+                n = (len(tok) - 1) // 2
+                b = 0 if n == 0 else 1 << (n.bit_length() - 1)
+                lens["%d..%d" % (b, 2 * b - 1 if b else 0)] += 1
+        for r in a.split("|"):
+            if r.startswith("ok"):
+                ans["ok"] += 1
+            elif r.startswith("err:"):
+                ans[r] += 1
+            elif r == "?":
+                ans["unspecified-after-error"] += 1
+            elif r in ("True", "False"):
+                ans["eq=" + r] += 1
+            else:
+                ans["observation" if "{" in r else r[:20]] += 1
+    return {"request_kinds": dict(kinds), "classes": dict(classes), "operations": dict(ops),
+            "answers": dict(ans), "bytes_argument_lengths": dict(lens)}
 
 # ----------------------------------------------------------------------------- known findings
 
@@ -299,6 +335,7 @@ def run_check(pid, tier, seed):
             "samples": corr["samples"] or [{"note": "no correspondence lines"}],
             "traces_validated_against_impl": corr["n"],
             "correspondence": {"lines": corr["n"], "disagreements": len(corr["diffs"]), "impl_s": corr.get("impl_s"), "model_s": corr.get("model_s")},
+            "input_distribution": corr.get("distribution", {}),
             "oracle": {k: v for k, v in ctx.stats.items()},
             "known_findings_listed": [e["id"] for e in known if e.get("status") == "known"],
             "known_findings_reobserved": sorted(seen_known),
